@@ -228,6 +228,7 @@ WHAT = {
     "parsed-as-different-kind": "a string is parsed as a different kind than its 'URI:<kind>:' header names",
     "outside-grammar-accepted": "a string outside the independent grammar is accepted as a known kind (and round-trips)",
     "canonical-string-rejected": "a canonical cap string in a plain context is not recognised as its kind",
+    "consistent-prefix-rejected": "a canonical cap under an alleged ro./imm. prefix or deep-immutable context that it already satisfies is not recognised as its kind",
     "unknown-changes-string": "UnknownURI.to_string() differs from the string that was parsed",
     "roundtrip-not-equal": "from_string(c.to_string()) is not equal to c",
     "roundtrip-different-class": "from_string(c.to_string()) is of another class than c",
@@ -294,6 +295,10 @@ def run(ck):
                 if pre == b"" and not deep:
                     bad("canonical-string-rejected", "%r (inside the grammar of %s) came back as UnknownURI"
                         % (as_bytes, gk.name), wit)
+                elif satisfies(gk, pre, deep):
+                    # the prefix / context alleges nothing this kind does not already guarantee
+                    bad("consistent-prefix-rejected", "%r (deep_immutable=%r): a %s cap already satisfies the alleged "
+                        "constraint, yet came back as UnknownURI" % (as_bytes, deep, gk.name), wit)
                 else:
                     ck.skip("canonical-cap-unknown-in-constrained-context")
             return
@@ -319,6 +324,18 @@ def run(ck):
             else:
                 ck.hit("lenient-accept:" + key)
                 bad(key, "%s(%r) -> %s whose to_string() is %r" % (api, show(as_bytes), cname, show(t)), wit)
+
+    def satisfies(kind, pre, deep):
+        """Does every cap of `kind` already meet what prefix `pre` / deep_immutable allege?
+        ro. alleges 'not writeable'; imm. and deep_immutable allege 'not writeable and not mutable'
+        (verify caps are not mutable objects: is_mutable() is False for them)."""
+        readonly = kind.level != "w"
+        immutable = (not kind.mutable) or kind.level == "v"
+        if deep or pre == M.IMM_PREFIX:
+            return readonly and immutable
+        if pre == M.RO_PREFIX:
+            return readonly
+        return True
 
     def call(fn, *a, **kw):
         try:
@@ -398,6 +415,30 @@ def run(ck):
                     dict(wit, input=show(s)))
             elif not (r == c) or r.to_string() != s:
                 bad("roundtrip-not-equal", "init_from_string(%r) != original" % (s,), dict(wit, input=show(s)))
+            # the same round trip under every alleged prefix / context that the cap ALREADY satisfies
+            ctxs = []
+            if c.is_readonly():
+                ctxs.append((b"ro.", False))
+                if not c.is_mutable():
+                    ctxs += [(b"imm.", False), (b"", True), (b"ro.", True), (b"imm.", True)]
+            if (c.is_readonly(), not c.is_mutable()) != (kind.level != "w", (not kind.mutable) or kind.level == "v"):
+                bad("roundtrip-not-equal", "%s reports is_readonly()=%r is_mutable()=%r, kind table disagrees"
+                    % (kind.cls, c.is_readonly(), c.is_mutable()), wit)
+            for pre, deep in ctxs:
+                for inp in (pre + s, (pre + s).decode("ascii")):
+                    ck.mon("roundtrip-under-consistent-prefix")
+                    ck.hit("consistent-prefix:" + (pre.decode() or "none") + ("+deep" if deep else ""))
+                    r, exc = call(uri.from_string, inp, deep_immutable=deep)
+                    w2 = dict(wit, input=show(pre + s), deep_immutable=deep, input_type=type(inp).__name__,
+                              parsed_as=type(exc or r).__name__)
+                    if exc is not None or type(r) is not type(c):
+                        bad("consistent-prefix-rejected",
+                            "from_string(%r, deep_immutable=%r) -> %s; a %s already satisfies that constraint and must "
+                            "parse back as itself" % (show(pre + s), deep, type(exc or r).__name__, kind.cls), w2)
+                    elif not (r == c) or (r != c) or r.to_string() != s:
+                        bad("roundtrip-not-equal", "from_string(%r, deep_immutable=%r) != original (%r)"
+                            % (show(pre + s), deep, show(r.to_string())), w2)
+                    ck.case("generated-cap-prefixed", key=("genp", pre, deep, s, type(inp).__name__), nontrivial=True)
             big = any(isinstance(f, int) and f >= 2 ** 32 for f in fields)
             if big:
                 ck.hit("large-integer-field")
@@ -450,7 +491,8 @@ def run(ck):
         ck.violations[key]["count"] = cnt
     ck.extra["violation_seen_for_classes"] = {k: sorted(v) for k, v in sorted(by_kind.items())}
     ck.exhaustive = False
-    ck.require_monitor("accept-implies-exact-reserialization", "roundtrip")
+    ck.require_monitor("accept-implies-exact-reserialization", "roundtrip", "roundtrip-under-consistent-prefix")
+    ck.require_reach("consistent-prefix:ro.", "consistent-prefix:imm.", "consistent-prefix:none+deep")
     ck.require_reach("accepted-as-known-kind", "reported-unknown", "mutation:trailing", "mutation:integer-spelling",
                      "mutation:base32-tail", "mutation:base32-length", "mutation:alleged-prefix",
                      "mutation:mdmf-extension", "mutation:swapped-header", "mutation:insert", "mutation:delete",
@@ -461,11 +503,15 @@ def run(ck):
 # MUST_CATCH -- planted in scratch copies (VF_REPO), every one exits 1 with the listed key in addition to the
 # three keys the unchanged tree already shows:
 #   1. CHKFileURI.to_string swaps needed_shares/total_shares     -> serialization-differs-from-format, roundtrip-not-equal
-#   2. BASE32STR_128bits accepts any base32 char in last place    -> accepts-noncanonical-base32
+#   2. BASE32STR_128bits accepts any base32 char in last place    -> accepts-noncanonical-base32 on the original tree; since
+#      /repo a2701d0 (base32.a2b rejects non-zero padding bits) the string is refused by an AssertionError from a2b
+#      instead -> rejected-by-exception, observation from_string-raised-AssertionError, exit 0 (masked, not a miss)
 #   3. from_string sends 'URI:SSK-RO:' bodies to SSKVerifierURI   -> parsed-as-different-kind, roundtrip-different-class
 #   4. WriteableSSKFileURI.STRING_RE loses its end anchor         -> accepts-trailing-junk
 #   5. from_string strips repeated 'ro.' prefixes (while loop)    -> parsed-as-different-kind
 #   6. LiteralFileURI.STRING_RE compiled with re.I                -> parsed-as-different-kind ('uri:lit:' header accepted)
 #   7. constraint failures return UnknownURI(s) (prefix stripped) -> unknown-changes-string
 #   8. NUMBER also accepts a leading '+'                          -> accepts-nonroundtrip-other
+#   9. seeded C15-1: 'URI:DIR2-MDMF-RO:' branch guarded by can_be_writeable instead of can_be_mutable
+#      ('ro.'+readcap comes back UnknownURI)                       -> consistent-prefix-rejected
 # Fix validation: with '\\Z' anchors on every STRING_RE and NUMBER=(0|[1-9][0-9]*) the check exits 0 (seeds 0 and 3).
